@@ -229,6 +229,12 @@ fn run(c: &RwCase, obs: &mut Obs) -> Result<(), String> {
     if big {
         obs.label("class>=3-nodes");
     }
+    {
+        let pr = eg.progress();
+        if pr.sum_of_symmetries > pr.number_of_live_classes {
+            obs.label("symmetric-class-reached");
+        }
+    }
     obs.nontrivial = changed > 0 && big && has_binder && binder_rule;
     Ok(())
 }
@@ -238,6 +244,41 @@ fn gen_start(ch: &[u16]) -> (Tm, Option<usize>) {
     let mut src = Src::new(ch);
     let cfg = GenCfg { alphabet: 3, max_depth: 3, payload_u32_max: 4, avoid_same_node_shadowing: false, ..GenCfg::default() };
     let pool = fp_rules();
+    // one case in six: a semantically symmetric term S (invariant under some, not all, permutations of its four names, once
+    // commutativity has been applied) used twice, the second time with permuted names and possibly negated: op(S, f(S[pi])).
+    // Non-linear rules (add-neg, factor, let-intro) must fire on it exactly when pi is a symmetry of S - a repeated pattern
+    // variable has to be compared through the class's group, not through slot sets or orbits.
+    if src.pick(6) == 0 {
+        let v = |n: Name| Tm::node("var", vec![Arg::S(n)]);
+        let bin = |op: &str, a: Tm, b: Tm| Tm::node(op, vec![Arg::K(vec![], a), Arg::K(vec![], b)]);
+        let shape = |k: usize, n: &[Name]| -> Tm {
+            match k {
+                0 => bin("add", bin("mul", v(n[0]), v(n[1])), bin("mul", v(n[2]), v(n[3]))),
+                1 => bin("mul", bin("add", v(n[0]), v(n[1])), bin("add", v(n[2]), v(n[3]))),
+                2 => bin("add", bin("mul", v(n[0]), v(n[1])), v(n[2])),
+                3 => bin("add", bin("mul", v(n[0]), v(n[1])), bin("mul", v(n[1]), v(n[2]))),
+                4 => bin("mul", bin("add", v(n[0]), v(n[1])), bin("mul", v(n[2]), v(n[3]))),
+                _ => bin("add", bin("add", v(n[0]), v(n[1])), bin("mul", v(n[2]), v(n[3]))),
+            }
+        };
+        let k = src.pick(6);
+        let names: Vec<Name> = vec![0, 1, 2, 3];
+        let mut perm = names.clone();
+        for i in (1..perm.len()).rev() {
+            let j = src.pick(i + 1);
+            perm.swap(i, j);
+        }
+        let s1 = shape(k, &names);
+        let s2 = shape(k, &perm);
+        let s2 = if src.pick(2) == 0 { Tm::node("neg", vec![Arg::K(vec![], s2)]) } else { s2 };
+        let t = match src.pick(3) {
+            0 => bin("add", s1, s2),
+            1 => bin("mul", s1, s2),
+            _ => bin("add", bin("mul", v(0), s1), bin("mul", v(0), s2)),
+        };
+        // the rules that make S symmetric and the non-linear ones are added by the caller (planted = usize::MAX)
+        return (t, Some(usize::MAX));
+    }
     // half of the time: a context around an instance of some rule's left side (so that rules fire)
     if src.pick(4) == 0 {
         return (cap_fv(&gen_tm(&sig, &cfg, &mut src, 0), 3), None);
@@ -285,7 +326,13 @@ fn strategy(max_iters: u8) -> BoxedStrategy<RwCase> {
     )
         .prop_map(|(ch, mut rules, iters, extraction_subst, use_runner, env_seed)| {
             let (start, planted) = gen_start(&ch);
-            if let Some(p) = planted {
+            if planted == Some(usize::MAX) {
+                // symmetric-pair start term: commutativity (makes the repeated subterm's class symmetric) plus non-linear rules
+                let pool = fp_rules();
+                for n in ["add-comm", "mul-comm", "add-neg", "factor", "let-intro"] {
+                    rules.push(pool.iter().position(|r| r.name == n).unwrap());
+                }
+            } else if let Some(p) = planted {
                 // the rule whose left side was planted is part of the rule set
                 rules.push(p);
             }
@@ -312,7 +359,7 @@ pub fn property(tier: Tier) -> Property {
                                 if c.use_runner { "Runner" } else { "apply_rewrites" }
             )
         },
-        rule: "start term over the F_5 language (summation over the index set {0,1}) (half of them a context around an instance of a rule's left side), a subset of 1-7 of the 32 model-valid rules (conditions assembled from the library's slot_free_in / and / or / not) (assoc/comm/distrib, units, sum linearity both ways, scaling into and out of the binder, sum shift, let rules, b[x:=t] right sides), 1-4/5 iterations under apply_rewrites or Runner (node limit 1500), both substitution methods; every e-node of every class evaluated in 8 random environments against the class's Bellman-Ford-cheapest e-node, redundant slots given fresh random values, root against direct evaluation of the start term; non-trivial = rewriting changed the e-graph, a binder rule was in the set, the start term has a binder and some class has >= 3 e-nodes; distinct by rendered case",
+        rule: "start term over the F_5 language (summation over the index set {0,1}) (half of them a context around an instance of a rule's left side; one in six a symmetric four-name term used twice with permuted names under add/mul/neg, rewritten with commutativity and the non-linear rules), a subset of 1-7 of the 32 model-valid rules (conditions assembled from the library's slot_free_in / and / or / not) (assoc/comm/distrib, units, sum linearity both ways, scaling into and out of the binder, sum shift, let rules, b[x:=t] right sides), 1-4/5 iterations under apply_rewrites or Runner (node limit 1500), both substitution methods; every e-node of every class evaluated in 8 random environments against the class's Bellman-Ford-cheapest e-node, redundant slots given fresh random values, root against direct evaluation of the start term; non-trivial = rewriting changed the e-graph, a binder rule was in the set, the start term has a binder and some class has >= 3 e-nodes; distinct by rendered case",
         case_timeout_s: tier.pick(30, 120),
         exhaustive: false,
     })];
